@@ -46,6 +46,7 @@ fn build_cfg(tier: Tier, index: u64) -> HistCfg {
         phases: false,
         special_keys: false,
         default_table: false,
+        big_table: None,
     };
     rare_regions(&mut c, index);
     c
@@ -70,6 +71,7 @@ fn reads_cfg(tier: Tier) -> OpsCfg {
             dbsync: 3,
             handles: 4,
             reopen: 0,
+            burst: 0,
         },
         val: ValProfile::Small,
         n_ops: tier.pick(20..=200, 20..=400),
@@ -139,6 +141,7 @@ fn run_c15(c: &C15Case, w: &WCtx) -> Result<Report, Failure> {
             ops: c.reads.clone(),
             obs: Obs::default(),
             excluded: 0,
+            quiet_prefix: 0,
         };
         let nb = c.build.ops.len();
         let mut e2 = Exec::new(&h2, &ctx).map_err(|mut f| {
